@@ -12,6 +12,8 @@ c03_hist : a pool (maxsize 1..2) serves 2 (quick) / 3 (thorough) requests /r1, /
 """
 from __future__ import annotations
 
+import gc
+
 from kit.h import P, run, mark, known, concretize, decode_point
 from kit import net as N
 from kit import env as E
@@ -159,8 +161,9 @@ def consume(resp, d, k, pieces):
     return pieces
 
 
-def _hist_body(maxsize, b1, d1, k1, late1, b2, d2, k2, late2, b3, d3, k3, retry2):
+def _hist_body(maxsize, b1, d1, k1, late1, b2, d2, k2, late2, b3, d3, k3, retry2, drops=("keep", "keep")):
     n = P.n
+    drop_of = {1: drops[0], 2: drops[1], 3: "keep"}
     bs = {1: b1, 2: b2, 3: b3}
     ds = {1: d1, 2: d2, 3: d3}
     ks = {1: k1, 2: k2, 3: k3}
@@ -197,7 +200,14 @@ def _hist_body(maxsize, b1, d1, k1, late1, b2, d2, k2, late2, b3, d3, k3, retry2
                 if not body.startswith(got):
                     return _fail("request %d (%s, %s) delivered %r, which is not a prefix of its own body %r"
                                  % (i, BNAMES[b], DNAMES[d], got, body))
-                held.append((i, resp, body, got))
+                if drop_of[i] == "drop":
+                    resp = None
+                    gc.collect()
+                    mark("response object dropped")
+                else:
+                    if drop_of[i] == "close":
+                        resp.close()
+                    held.append((i, resp, body, got))
                 mark("response %d" % i)
             else:
                 mark("error %d" % i)
@@ -229,8 +239,12 @@ def _opts(bs, ds, ks, late_ok):
                 lates = [False]
                 if late_ok and ((d in (1, 2, 6) and b in (0, 2, 12)) or (b == 11 and d in (0, 1, 3, 5))):
                     lates = [False, True]
+                # what happens to the response OBJECT afterwards: kept alive (http.client then refuses to reuse the connection
+                # while it is unread), dropped (garbage-collected), or closed
+                drops = ["keep", "drop", "close"] if d in (D_READK_RELEASE, D_RELEASE, D_STREAM1_RELEASE) else ["keep"]
                 for late in lates:
-                    out.append((b, d, k, late))
+                    for drop in drops:
+                        out.append((b, d, k, late, drop))
     return out
 
 
@@ -244,9 +258,9 @@ def hist_dims(part):
 
 def _hist_point(idx):
     vals = decode_point(idx, hist_dims)
-    maxsize, (b1, d1, k1, late1), (b2, d2, k2, late2), retry2 = vals[:4]
+    maxsize, (b1, d1, k1, late1, drop1), (b2, d2, k2, late2, drop2), retry2 = vals[:4]
     b3, d3, k3 = (vals[4][0], vals[4][1], vals[4][2]) if len(vals) > 4 else (0, 0, 0)
-    return N._untraced(_hist_body)(maxsize, b1, d1, k1, late1, b2, d2, k2, late2, b3, d3, k3, retry2)
+    return N._untraced(_hist_body)(maxsize, b1, d1, k1, late1, b2, d2, k2, late2, b3, d3, k3, retry2, (drop1, drop2))
 
 
 def c03_hist(idx: int) -> bool:
